@@ -117,7 +117,7 @@ def must_ok(r, what):
 # ----------------------------------------------------------------------------------------- pure part
 
 PURE_CONST = dict(Nodes=R('{"n1"}'), Lanes=R('{"l1"}'), Exists=R('{}'), Dls=R('{}'), Bodies=R('{}'), MaxInst=1,
-                  ServerMode=True, MaxSend=0, MaxPeer=0, MCKinds=R('{}'), PathSel="A")
+                  ServerMode=True, MaxSend=0, MaxPeer=0, MCKinds=R('{}'), PathSel="A", OneWay=R('{}'))
 
 
 def pure_enumerate(wd):
@@ -239,12 +239,15 @@ def mr_graph_configs(tier):
     if tier == "quick":
         return [dict(BucketSize=64, Pad=0, NStreams=2, MaxItems=2), dict(BucketSize=64, Pad=63, NStreams=2, MaxItems=2),
                 dict(BucketSize=64, Pad=67, NStreams=3, MaxItems=1, _sim="num=150"),
-                dict(BucketSize=64, Pad=0, NStreams=3, MaxItems=6, _sim="num=120")]
+                dict(BucketSize=64, Pad=0, NStreams=3, MaxItems=12, _sim="num=120", _depth=100),
+                dict(BucketSize=64, Pad=0, NStreams=3, MaxItems=8, _sim="num=25", _depth=70, _ac=["Burst"])]
     return [dict(BucketSize=64, Pad=0, NStreams=3, MaxItems=1), dict(BucketSize=64, Pad=0, NStreams=2, MaxItems=3),
             dict(BucketSize=64, Pad=63, NStreams=2, MaxItems=2), dict(BucketSize=64, Pad=67, NStreams=3, MaxItems=1),
             dict(BucketSize=64, Pad=62, NStreams=4, MaxItems=2, _sim="num=1500"),
-            dict(BucketSize=64, Pad=0, NStreams=3, MaxItems=8, _sim="num=1500"),
-            dict(BucketSize=64, Pad=126, NStreams=4, MaxItems=2, _sim="num=600")]
+            dict(BucketSize=64, Pad=0, NStreams=3, MaxItems=12, _sim="num=1500", _depth=100),
+            dict(BucketSize=64, Pad=126, NStreams=4, MaxItems=2, _sim="num=600"),
+            dict(BucketSize=64, Pad=0, NStreams=3, MaxItems=8, _sim="num=200", _depth=70, _ac=["Burst"]),
+            dict(BucketSize=64, Pad=62, NStreams=4, MaxItems=6, _sim="num=200", _depth=90, _ac=["Burst"])]
 
 
 def behaviours_from_edges(edges):
@@ -323,10 +326,11 @@ def mux_jobs(tier, wd):
     for ci, k in enumerate(gcfgs):
         def gr(k=k, ci=ci):
             kk = {a: b for a, b in k.items() if not a.startswith("_")}
-            c = core.cfg(constants=kk, invariants=MR_INV + ["InitDump"], view="View", action_constraints=["EdgeDump"])
+            c = core.cfg(constants=kk, invariants=MR_INV + ["InitDump"], view="View",
+                         action_constraints=list(k.get("_ac", [])) + ["EdgeDump"])
             if "_sim" in k:
                 return core.run_tlc("MC_MultiReader", c, os.path.join(wd, "mr_g_%d" % ci), workers=1, timeout=1500,
-                                    simulate=k["_sim"], extra=["-depth", "60", "-seed", str(core.seed() + ci)])
+                                    simulate=k["_sim"], extra=["-depth", str(k.get("_depth", 60)), "-seed", str(core.seed() + ci)])
             return core.run_tlc("MC_MultiReader", c, os.path.join(wd, "mr_g_%d" % ci), workers=1, timeout=1500)
         jobs.append((("mr_g", ci), gr))
     return jobs
@@ -410,13 +414,13 @@ RT_AC = ["KindFilter", "DlScript", "Urgent"]
 
 def rt_b3_configs(tier):
     inc1 = dict(Nodes=R('{"n2"}'), Lanes=R('{"l1","l2"}'), Exists=R('{}'), Dls=R('{1,2,3}'), Bodies=R('{}'), MaxInst=1,
-                ServerMode=True, MaxSend=0, MaxPeer=2, MCKinds=R('{"event","invalid"}'), PathSel="A")
+                ServerMode=True, MaxSend=0, MaxPeer=2, MCKinds=R('{"event","invalid"}'), PathSel="A", OneWay=R('{}'))
     inc2 = dict(Nodes=R('{"n1","n2"}'), Lanes=R('{"l1"}'), Exists=R('{"n1"}'), Dls=R('{}'), Bodies=R('{}'), MaxInst=2,
-                ServerMode=True, MaxSend=0, MaxPeer=3, MCKinds=R('{"command","link","invalid","auth"}'), PathSel="A")
+                ServerMode=True, MaxSend=0, MaxPeer=3, MCKinds=R('{"command","link","invalid","auth"}'), PathSel="A", OneWay=R('{}'))
     outc = dict(Nodes=R('{"n1","n2"}'), Lanes=R('{"l1"}'), Exists=R('{"n1"}'), Dls=R('{1,2}'), Bodies=R('{}'), MaxInst=1,
-                ServerMode=True, MaxSend=3, MaxPeer=1, MCKinds=R('{"command","event"}'), PathSel="B")
+                ServerMode=True, MaxSend=3, MaxPeer=1, MCKinds=R('{"command","event"}'), PathSel="B", OneWay=R('{2}'))
     cli = dict(Nodes=R('{"n1"}'), Lanes=R('{"l1","l2"}'), Exists=R('{}'), Dls=R('{1,2}'), Bodies=R('{"b1"}'), MaxInst=1,
-               ServerMode=False, MaxSend=1, MaxPeer=2, MCKinds=R('{"command","link","unlinked"}'), PathSel="B")
+               ServerMode=False, MaxSend=1, MaxPeer=2, MCKinds=R('{"command","link","unlinked"}'), PathSel="B", OneWay=R('{}'))
     if tier == "quick":
         return [("inc1", inc1, False), ("inc2", inc2, False), ("out", outc, False), ("client", cli, False)]
     return [("inc1", dict(inc1, MaxPeer=3), False), ("inc2", dict(inc2, MaxPeer=4), False),
@@ -424,13 +428,13 @@ def rt_b3_configs(tier):
             ("out_live", dict(outc, MaxSend=2), True), ("inc_live", dict(inc1, MaxPeer=2, Dls=R('{1,2}')), True)]
 
 
-SIM_SERVER = dict(Nodes=R('{"n1","n2","n3"}'), Lanes=R('{"l1","l2"}'), Exists=R('{"n1","n2"}'), Dls=R('{1,2,3}'),
+SIM_SERVER = dict(Nodes=R('{"n1","n2","n3"}'), Lanes=R('{"l1","l2"}'), Exists=R('{"n1","n2"}'), Dls=R('{1,2,3,4}'), OneWay=R('{4}'),
                   Bodies=R('{"b1","b2"}'), MaxInst=2, ServerMode=True, MaxSend=12, MaxPeer=12,
-                  MCKinds=R('{"link","sync","unlink","command","linked","synced","unlinked","event","invalid","auth"}'), PathSel="B")
-SIM_CLIENT = dict(SIM_SERVER, ServerMode=False, Exists=R('{}'), PathSel="A")
+                  MCKinds=R('{"link","sync","unlink","command","linked","synced","unlinked","event","invalid","auth"}'), PathSel="C")
+SIM_CLIENT = dict(SIM_SERVER, ServerMode=False, Exists=R('{}'), PathSel="B")
 TRACE_CONST = dict(Nodes=R('{"n1","n2","n3"}'), Lanes=R('{"l1","l2"}'), Bodies=R('{"b1","b2"}'), MaxInst=2,
                    EnabledFindings=R('{}'))
-ENV_ACTS = {"attach_req", "attach_done", "dl_send", "dl_detach", "agent_send", "agent_stop", "peer_send"}
+ENV_ACTS = {"attach_req", "attach_oneway", "attach_done", "dl_send", "dl_detach", "agent_send", "agent_stop", "peer_send"}
 
 
 def enabled_findings():
@@ -582,8 +586,13 @@ def wide_script(n_dl, per, rng):
     acts.append({"k": "peer_send", "msg": {"kind": "event", "node": "n1", "lane": "l1", "body": "b1"}})
     for d in range(1, n_dl + 1, 3):
         acts.append({"k": "dl_detach", "d": d})
-    acts.append({"k": "peer_send", "msg": {"kind": "event", "node": "n1", "lane": "l1", "body": "b2"}})
-    acts.append({"k": "peer_send", "msg": {"kind": "unlinked", "node": "n1", "lane": "l2", "body": "b2"}})
+    # the first frame per lane after the detachments finds the dead writers, the following ones must
+    # still reach every live subscriber of that lane
+    for lane in ("l1", "l2"):
+        acts.append({"k": "peer_send", "msg": {"kind": "event", "node": "n1", "lane": lane, "body": "b2"}})
+        acts.append({"k": "settle"} if lane == "l1" else {"k": "peer_send", "msg": {"kind": "linked", "node": "n1", "lane": "l1", "body": ""}})
+        acts.append({"k": "peer_send", "msg": {"kind": "event", "node": "n1", "lane": lane, "body": "b1"}})
+        acts.append({"k": "peer_send", "msg": {"kind": "unlinked", "node": "n1", "lane": lane, "body": "b2"}})
     return acts
 
 
@@ -626,7 +635,8 @@ def routing_part(tier, out, wd, rng, stats, cov, res):
         for j, s in enumerate(abstract_scripts(behs, rng)):
             acts, maps = concretise(s, rng)
             cfg = {"server": name == "server", "exists": [maps["nodes"][n] for n in (("n1", "n2") if name == "server" else ())],
-                   "max_inst": 2, "buf": rng.choice([4096, 4096, 96, 40])}
+                   "max_inst": 2, "buf": rng.choice([4096, 4096, 96, 40]), "duplex": rng.choice([1 << 16, 1 << 16, 300]),
+                   "reg_buf": rng.choice([8, 8, 1])}
             cases.append({"id": "%s%d" % (name, j), "cfg": cfg, "acts": acts, "maps": maps, "abstract": s, "group": name})
     # many sources on one socket
     wides = [(3, 3), (70, 2)] if tier == "quick" else [(3, 5), (70, 3), (130, 2)]
@@ -656,9 +666,9 @@ def routing_part(tier, out, wd, rng, stats, cov, res):
             const = dict(TRACE_CONST, Dls=R("{%s}" % ", ".join(str(x) for x in range(1, n + 1))), Exists=R('{}'), ServerMode=True,
                          Bodies=R("{%s}" % ", ".join('"%s"' % b for b in ["b1", "b2"] + wide_bodies(n, items[0][0]["per"]))))
         elif g == "server":
-            const = dict(TRACE_CONST, Dls=R("{1,2,3}"), Exists=R('{"n1","n2"}'), ServerMode=True)
+            const = dict(TRACE_CONST, Dls=R("{1,2,3,4}"), Exists=R('{"n1","n2"}'), ServerMode=True)
         else:
-            const = dict(TRACE_CONST, Dls=R("{1,2,3}"), Exists=R('{}'), ServerMode=False)
+            const = dict(TRACE_CONST, Dls=R("{1,2,3,4}"), Exists=R('{}'), ServerMode=False)
         const["EnabledFindings"] = enabled_findings()
         n_ev, fails, kfs = validate_many("Trace_Remote", [h for _, _, h in items], os.path.join(wd, "tv_" + g), constants=const,
                                          invariants=["TraceInv"])
@@ -782,9 +792,9 @@ def replay(path, out):
             const = dict(TRACE_CONST, Dls=R("{%s}" % ", ".join(str(x) for x in range(1, obj["n_dl"] + 1))), Exists=R('{}'), ServerMode=True,
                          Bodies=R("{%s}" % ", ".join('"%s"' % b for b in ["b1", "b2"] + wide_bodies(obj["n_dl"], obj["per"]))))
         elif g == "server":
-            const = dict(TRACE_CONST, Dls=R("{1,2,3}"), Exists=R('{"n1","n2"}'), ServerMode=True)
+            const = dict(TRACE_CONST, Dls=R("{1,2,3,4}"), Exists=R('{"n1","n2"}'), ServerMode=True)
         else:
-            const = dict(TRACE_CONST, Dls=R("{1,2,3}"), Exists=R('{}'), ServerMode=False)
+            const = dict(TRACE_CONST, Dls=R("{1,2,3,4}"), Exists=R('{}'), ServerMode=False)
         const["EnabledFindings"] = enabled_findings()
         n, fails, kfs = validate_many("Trace_Remote", [h], wd, constants=const, invariants=["TraceInv"])
         for k_ in sorted(kfs):
